@@ -209,6 +209,107 @@ theorem iterate_lengths_any (paths : List Bytes) (sizes : List Nat) (fuel : Nat)
     entrySize sizes e = some c.length :=
   iterateE_sizes paths sizes fuel archive i e c h
 
+/-! ## the size and digest clauses of the property -/
+
+/-- no item is made from a trailer entry -/
+theorem item_not_trailer (paths : List Bytes) (sizes : List Nat) : ∀ (fuel : Nat) (bs : Bytes) (i : Nat)
+    (e : PayloadEntry) (c : Bytes), .ok (i, e, c) ∈ iterateE paths sizes fuel bs → isTrailer e = false := by
+  intro fuel
+  induction fuel with
+  | zero => intro bs i e c h; simp [iterateE] at h
+  | succ k ih =>
+    intro bs i e c h
+    obtain ⟨e0, fs, r, _, hnt, i0, _, c0, r', _, h⟩ := iterateE_ok_cases h
+    rcases h with h | h
+    · simp only [Prod.mk.injEq] at h
+      obtain ⟨_, rfl, _⟩ := h
+      exact hnt
+    · exact ih _ _ _ _ h
+
+/-- **item_length_eq_recorded_iff** — "its length equals the recorded size", for ANY archive bytes and ANY header: an
+item `(i, e, c)` — content `c` read from archive entry `e`, handed out with the metadata of header file `i` — has the
+length recorded for file `i` (`sizes[i]`, FILESIZES / LONGFILESIZES) EXACTLY WHEN the `filesize` field of the cpio header of
+`e` says so; a stripped entry has no size of its own, so there the clause always holds.  The iterator does not compare the
+two numbers itself (`recorded_size_not_compared_witness`). -/
+theorem item_length_eq_recorded_iff (paths : List Bytes) (sizes : List Nat) (fuel : Nat) (archive : Bytes) (i : Nat)
+    (e : PayloadEntry) (c : Bytes) (h : .ok (i, e, c) ∈ iterateE paths sizes fuel archive) :
+    (sizes[i]? = some c.length) ↔
+      (match e with
+       | .cpio ce => sizes[i]? = some ce.fileSize
+       | .stripped _ => True) := by
+  obtain ⟨hfi, hsz⟩ := iterateE_item paths sizes fuel archive i e c h
+  have hnt := item_not_trailer paths sizes fuel archive i e c h
+  cases e with
+  | cpio ce =>
+    simp only [entrySize, Option.some.injEq] at hsz
+    simp only [hsz]
+  | stripped idx =>
+    have hi := fileIndex_stripped hfi
+    subst hi
+    simp only [isTrailer, beq_eq_false_iff_ne, ne_eq] at hnt
+    simp only [entrySize, hnt, if_false] at hsz
+    simp only [hsz]
+
+/-- **recorded_size_not_compared_witness** — a (foreign) package whose header records 5 bytes for `/a` while the cpio
+entry `./a` says `filesize` = 1: the iterator hands out an `Ok` item for file 0 whose content has 1 byte — the bytes stored
+in the archive — under metadata that says 5.  (`Package::files` never looks at `FileEntry.size` for newc / crc entries.) -/
+theorem recorded_size_not_compared_witness :
+    iterate (archiveOf [({ name := [46, 47, 97], ino := 1, mode := 33188 }, [65])]) [[47, 97]] [5] = [.ok (0, [65])] := by
+  decide +kernel
+
+/-- the k-th item of the library's own archives is the k-th builder file -/
+theorem built_item (fs : List FileIn) (k : Nat) (c : Bytes)
+    (h : (Out.ok (k, c) : Out (Nat × Bytes)) ∈ fs.zipIdx.map fun x => .ok (x.2, x.1.content)) :
+    (fs.map (·.content))[k]? = some c := by
+  obtain ⟨⟨f, j⟩, hq, heq⟩ := List.mem_map.mp h
+  simp only [Out.ok.injEq, Prod.mk.injEq] at heq
+  obtain ⟨rfl, rfl⟩ := heq
+  have hj := List.mem_zipIdx hq
+  simp only [Nat.zero_add, Nat.sub_zero] at hj
+  obtain ⟨_, hlt, hget⟩ := hj
+  have hlt' : j < fs.length := by simpa using hlt
+  simp only [List.getElem?_map, List.getElem?_eq_getElem hlt', Option.map_some, hget]
+
+/-- **item_digest_matches** — "its digest equals the recorded file digest", for packages built by the library, standard
+form, ANY hash function `H` and ANY round-tripping codec: when the header records for file `k` the digest of the `k`-th
+builder file's content (`recorded`; that it does is C08 `file_digest_is_content_digest` + `file_digests`), every item
+`(k, c)` that `Package::files()` yields satisfies `recorded[k] = H c` — and `c.len()` is the recorded size -/
+theorem item_digest_matches (H : Bytes → Bytes) (compress : Bytes → Bytes) (decompress : Bytes → Out Bytes)
+    (hcd : ∀ x, decompress (compress x) = .ok x) {uid gid : Nat} (hu : uid < 4294967296) (hg : gid < 4294967296)
+    (fs : List FileIn) (hfs : ∀ f ∈ fs, f.OK) (hn : fs.length < 4294967296) (hnd : (headerPaths fs).Nodup)
+    (recorded : List Bytes) (hrec : recorded = fs.map fun f => H f.content) :
+    ∃ items, files decompress (compress (builderArchive uid gid fs)) (headerPaths fs) (fs.map (·.content.length)) = .ok items
+      ∧ items.length = fs.length
+      ∧ ∀ k c, .ok (k, c) ∈ items → recorded[k]? = some (H c) ∧ (fs.map (·.content.length))[k]? = some c.length := by
+  refine ⟨_, files_of_build compress decompress hcd hu hg fs hfs hn hnd, by simp, fun k c hm => ?_⟩
+  have := built_item fs k c hm
+  simp only [List.getElem?_map, Option.map_eq_some_iff] at this
+  obtain ⟨f, hf, rfl⟩ := this
+  subst hrec
+  simp [hf]
+
+/-- the same in large-file mode -/
+theorem item_digest_matches_large (H : Bytes → Bytes) (compress : Bytes → Bytes) (decompress : Bytes → Out Bytes)
+    (hcd : ∀ x, decompress (compress x) = .ok x) (fs : List FileIn) (hn : fs.length ≤ 4294967295)
+    (recorded : List Bytes) (hrec : recorded = fs.map fun f => H f.content) :
+    ∃ items, files decompress (compress (builderArchiveLarge fs)) (headerPaths fs) (fs.map (·.content.length)) = .ok items
+      ∧ items.length = fs.length
+      ∧ ∀ k c, .ok (k, c) ∈ items → recorded[k]? = some (H c) ∧ (fs.map (·.content.length))[k]? = some c.length := by
+  refine ⟨_, files_of_build_large compress decompress hcd fs hn, by simp, fun k c hm => ?_⟩
+  have := built_item fs k c hm
+  simp only [List.getElem?_map, Option.map_eq_some_iff] at this
+  obtain ⟨f, hf, rfl⟩ := this
+  subst hrec
+  simp [hf]
+
+example : ∃ items, files .ok (builderArchive 0 0 [⟨[46, 47, 97], 33188, [1, 2, 3]⟩, ⟨[46, 47, 98], 33261, []⟩])
+      [[47, 97], [47, 98]] [3, 0] = .ok items ∧ items = [.ok (0, [1, 2, 3]), .ok (1, [])] := ⟨_, rfl, by decide +kernel⟩
+/-- `item_length_eq_recorded_iff` is not vacuous, in either direction: an entry whose `filesize` agrees, and one whose does not -/
+example : .ok (0, .cpio ⟨false, [46, 47, 97], 1, 33188, 0, 0, 1, 0, 1, 0, 0, 0, 0, 0⟩, [65])
+    ∈ iterateE [[47, 97]] [1] 1 (archiveOf [({ name := [46, 47, 97], ino := 1, mode := 33188 }, [65])]) := by decide +kernel
+example : .ok (0, .cpio ⟨false, [46, 47, 97], 1, 33188, 0, 0, 1, 0, 1, 0, 0, 0, 0, 0⟩, [65])
+    ∈ iterateE [[47, 97]] [5] 1 (archiveOf [({ name := [46, 47, 97], ino := 1, mode := 33188 }, [65])]) := by decide +kernel
+
 /-! ## pairing -/
 
 /-- header file `i` is the one the archive entry designates: for a newc / crc entry the file whose path
